@@ -7,11 +7,50 @@ RECIP = "recovery_ack_only_to_users_sent_a_problem_this_incident"
 
 # F-C03a (a Recovery discarded by the type filter kept notified_problem_users) is repaired in /repo (cec0506): its
 # classifier is gone, so a recurrence is reported as a violation.
-CLASSIFIERS = {}
+#
+# F-C03b: an unforced Recovery request dropped by Checkable::SendNotifications because notifications are switched off
+# (globally / for the checkable) leaves notified_problem_users behind.  The class is decided by the Lean driver on the
+# unminimised case (the specification rejects the Recovery / Acknowledgement, the weaker reading "the incident ends only
+# with a Recovery the notification object processed" accepts it: `class=` on the SPECFAIL line); the minimised witness
+# must in addition show the dropped request itself.
+DROPPED = "recovery_request_dropped_while_disabled"
 
 
-def classify(clause, lines):
-    return "unclassified"
+def _obs(line):
+    """(operation words, env ints, events text) of an observed line, or None."""
+    if " | " not in line:
+        return None
+    op, obs = line.split(" | ", 1)
+    groups = [g.strip() for g in obs.split(" ; ")]
+    if len(groups) != 5:
+        return None
+    return op.split(), [int(x) for x in groups[0].split()], groups[2]
+
+
+def is_dropped_recovery_witness(lines):
+    dropped = False
+    cur = None      # type of the request the following "+ k" lines belong to
+    for l in lines:
+        o = _obs(l)
+        if o is None:
+            continue
+        op, env, events = o
+        if op[0] in ("N", "q"):
+            cur = int(op[1])
+        elif op[0] == "T":
+            cur = None
+        if cur == 64 and op[0] in ("N", "q", "+") and env[18] == 0 and (env[11] == 0 or env[12] == 0) and events == "-":
+            dropped = True
+        elif dropped and any(ev.split(":")[0] in ("16", "64") and ev.split(":")[2] == "1" for ev in events.split(",") if ev != "-"):
+            return True
+    return False
+
+
+CLASSIFIERS = {DROPPED: is_dropped_recovery_witness}
+
+
+def classify(clause, lines, kv=None):
+    return (kv or {}).get("class", "unclassified")
 
 
 # Behaviour-preserving rewrites of the anchored code the check must stay silent on (patches: corpus/C03/negative_controls/*.diff,
@@ -48,8 +87,10 @@ SEEDED_CHANGES = [
 class C03(StdCheck):
     prop = "C03"
     exhaustive = True
-    required_theorems = ["delivery_only_if", "recovery_ack_recipients", "no_duplicate_problem",
-                         "reminder_only_in_hard_unsuppressed_problem", "reminder_spacing", "model_trace_meets_spec"]
+    required_theorems = ["delivery_only_if", "recovery_ack_recipients_partial", "recovery_ack_recipients_counterexample",
+                         "dropped_recovery_request_is_a_noop", "no_duplicate_problem",
+                         "reminder_only_in_hard_unsuppressed_problem", "reminder_spacing", "model_trace_meets_spec_partial",
+                         "model_trace_other_clauses", "model_trace_meets_spec_counterexample"]
     technique = ("Lean 4 proof (five independent checkers over the observed trace, each tied to the code's bookkeeping attributes by an "
                  "invariant; composition of BeginExecuteNotification calls incl. the replay of stashed requests; induction over operation "
                  "sequences); correspondence by exhaustive + random differential execution of the path OnNotificationsRequested -> started "
@@ -113,7 +154,7 @@ class C03(StdCheck):
                 kv = core.parse_kv(l)
                 cl = kv.get("clause", "?")
                 case = runner.extract_case(save, int(kv["case"]), self.case_start)
-                pre = classify(cl, case)
+                pre = classify(cl, case, kv)
                 groups.setdefault((cl, pre), []).append((case, l))
         res.extra.setdefault("spec_failure_groups", {})
         for (cl, pre), cases in sorted(groups.items()):
@@ -122,7 +163,8 @@ class C03(StdCheck):
             if any(f.what == what for f in res.spec_failures):
                 continue
             case, l = min(cases, key=lambda c: len(c[0]))
-            shown = self.shrink(harness, driver, case, "SPECFAIL", "clause=" + cl)
+            # (shrinking keeps the class the driver assigned, so that one root cause is not minimised into another)
+            shown = self.shrink(harness, driver, case, "SPECFAIL", "clause=" + cl + (" class=" + pre if pre != "unclassified" else ""))
             res.spec_failures.append(runner.Finding("spec", what, shown, {"driver": l, "cases_in_group": len(cases)},
                                                     {"clause": cl, "pre_class": pre}))
         n = tried = 0
